@@ -539,7 +539,85 @@ def run_keyword_forms(case):
     S.outcome(tuple(case))
 
 
+# ---------------------------------------------------------------------------------------
+# clause neighbours: other parts of the library that read the key tables are used in between
+# ---------------------------------------------------------------------------------------
+def _nb_calls():
+    import copy
+    from mingus.core import scales, chords, progressions
+    from mingus.containers.bar import Bar
+    from mingus.containers.note_container import NoteContainer
+    return [
+        ("scales.determine(['C', 'E', 'G'])", lambda: scales.determine(["C", "E", "G"])),
+        ("scales.determine(['F#', 'A#', 'C#', 'E#'])", lambda: scales.determine(["F#", "A#", "C#", "E#"])),
+        ("scales.determine of the seven naturals", lambda: scales.determine(list("CDEFGAB"))),
+        ("scales.Major('Gb').ascending() and descending()", lambda: (scales.Major("Gb").ascending(), scales.Major("Gb").descending())),
+        ("scales.HarmonicMinor('a#').ascending()", lambda: scales.HarmonicMinor("a#").ascending()),
+        ("chords.triads('Cb') and sevenths('a#')", lambda: (chords.triads("Cb"), chords.sevenths("a#"))),
+        ("progressions.to_chords(['I', 'bVII7', 'ivm'], 'F#')", lambda: progressions.to_chords(["I", "bVII7", "ivm"], "F#")),
+        ("copy.copy(Key('Eb'))", lambda: copy.copy(K.Key("Eb"))),
+        ("copy.deepcopy(Key('f#'))", lambda: copy.deepcopy(K.Key("f#"))),
+        ("copy.deepcopy(Bar('Ab', (3, 4)))", lambda: copy.deepcopy(Bar("Ab", (3, 4)))),
+        ("Bar() and Bar('c')", lambda: (Bar(), Bar("c"))),
+        ("NoteContainer().from_progression_shorthand('V7', 'Db')", lambda: NoteContainer().from_progression_shorthand("V7", "Db")),
+        ("sorting and reversing copies of the public tables", lambda: (sorted(K.keys), list(reversed(K.major_keys)), sorted(K.minor_keys))),
+    ]
+
+
+def _nb_battery():
+    out = []
+    for key in P.KEYS30:
+        for fn in (K.get_key_signature, K.get_key_signature_accidentals, K.get_notes, K.relative_major if key[0].islower() else K.relative_minor):
+            ok, got = _call(fn, key)
+            out.append((fn.__name__, key, ok, repr(got)))
+        ok, obj = _call(K.Key, key)
+        out.append(("Key", key, ok, repr((getattr(obj, "key", None), getattr(obj, "mode", None), getattr(obj, "signature", None), getattr(obj, "name", None)))))
+    for sig in range(-7, 8):
+        ok, got = _call(K.get_key, sig)
+        out.append(("get_key", sig, ok, repr(got)))
+    for fn in ("second", "third", "fifth", "seventh"):
+        for key in ("C", "Gb", "a#", "f"):
+            ok, got = _call(getattr(I, fn), key[0].upper(), key)
+            out.append((fn, key, ok, repr(got)))
+    return out
+
+
+def run_neighbours(case):
+    """case = index of a neighbour call: freshly loaded keys / intervals, the whole battery of key questions, the
+    neighbour call (twice), the battery again -- and the same with the neighbour call as the very first thing."""
+    S = engine.S
+    name, fn = _nb_calls()[case]
+
+    def cold():
+        # the modules that bind names of the key tables at import time are loaded afresh as well
+        import mingus.core.scales as _sc
+        _lh_cold()
+        importlib.reload(_sc)
+
+    cold()
+    base = _nb_battery()
+    for warm in (True, False):
+        cold()
+        if warm:
+            _nb_battery()
+        for _ in range(2):
+            try:
+                fn()
+            except Exception as e:                   # noqa -- the neighbours are judged by their own properties
+                S.count("neighbour_call_raised")
+        after = _nb_battery()
+        S.trans(2 * len(base) + 2)
+        if after != base:
+            bad = [i for i in range(len(base)) if after[i] != base[i]][0]
+            S.problem("keys.%s(%r) after %s (%s)" % (base[bad][0], base[bad][1], name, "asked before as well" if warm else "first question of the process"),
+                      base[bad][3], after[bad][3])
+            return
+    S.count("neighbour_histories")
+    S.outcome(("neighbours", case))
+
+
 CLAUSES = {
+    "neighbours": run_neighbours,
     "key_notes": run_key_notes,
     "lookup": run_lookup,
     "relative": run_relative,
@@ -568,6 +646,9 @@ def explore(ctx):
     if ctx.want("keyword_forms"):
         ctx.bound("keyword_forms", {"candidates": KW_CANDIDATES, "ordered pairs": len(KW_CANDIDATES) ** 2})
         ctx.serial("keyword_forms", [[a, b] for a in KW_CANDIDATES for b in KW_CANDIDATES])
+    if ctx.want("neighbours"):
+        ctx.bound("neighbours", [n for n, _ in _nb_calls()])
+        ctx.product("neighbours", list(range(len(_nb_calls()))), lambda i: [i])
     if ctx.want("long_history"):
         ctx.product("long_history", ["forward", "reversed"], lambda o: [o])
     if ctx.want("relative"):
